@@ -105,6 +105,14 @@ def dsk6(ctx, c):
     c.check(not missing and not dup and not extra and len(order) == D.GRANULES, "GRANULE_FILL_ORDER", "permutation of 0..67",
             "len=%d missing=%s duplicated=%s out-of-range=%s" % (len(order), missing, dup, extra),
             "GRANULE_FILL_ORDER must offer each of the 68 granules exactly once: missing %s, duplicated %s, out of range %s" % (missing, dup, extra), mod)
+    # the two granules of a track are offered lower half first, one after the other (Disk BASIC's order): a file that needs both halves of a track then lies in ascending
+    # physical order, which is what write_to_granules relies on when the 5-byte trailer runs over the end of a granule into the bytes that follow it
+    if not missing and not dup and not extra and len(order) == D.GRANULES:
+        rev = [(2 * t_, 2 * t_ + 1) for t_ in range(D.GRANULES // 2) if order.index(2 * t_) > order.index(2 * t_ + 1)]
+        c.check(not rev, "GRANULE_FILL_ORDER:track-halves", "first half of every track before its second half",
+                "the second half is offered before the first for granule pairs %s" % rev[:4],
+                "GRANULE_FILL_ORDER lists %s before %s (%d such pairs): a file that takes both is chained upper half first, and the trailer that write_to_granules lets run past the end of "
+                "the last granule lands in the physically following granule - one that belongs to the same file's beginning or to another file" % (rev[0][1] if rev else "", rev[0][0] if rev else "", len(rev)), mod)
     # find_empty_granule iterates the instance's fill order and returns only granules that are not in use
     fn = ctx.repo.method(CLS, "find_empty_granule")
     where = ctx.repo.loc(fn, fn.node)
@@ -326,6 +334,29 @@ def dsk7(ctx, c):
         else:
             c.finding("find_empty_directory_entry", "scans slots %d..%d" % (rng[0], rng[1] - 1),
                       "find_empty_directory_entry scans slots %d..%d; it must start at 0, cover at least 68 slots (one per granule) and stay within the 72 that exist" % (rng[0], rng[1] - 1), we)
+    # the search folded on model directories: the answer is the FIRST slot not in use (killed slots in the middle are reused), -1 only when none is free
+    from ..consteval import Raised as _Rfe
+    fe_bad, fe_und = None, None
+    scanned = rng[1] if rng else D.DIR_ENTRIES - 1
+    for used in (set(), {0, 1, 2}, {0, 1, 5}, {1}, {69, 70}, {0, 70}, set(range(2, 72)), set(range(72))):
+        want_ = next((n_ for n_ in range(0, scanned) if n_ not in used), -1)
+        try:
+            got_ = _fold_disk_method(ctx, "find_empty_directory_entry", dict(ctx.env), (), {"directory_entry_in_use": (lambda n_, _u=used: n_ in _u)})
+        except _Rfe as e_:
+            got_ = "raises %s" % e_.name
+        except (NotConst, Exception) as e_:
+            fe_und = str(e_)[:80]
+            break
+        if got_ != want_:
+            fe_bad = fe_bad or (sorted(used)[:6], len(used), got_, want_)
+    if fe_und:
+        c.undecided("find_empty_directory_entry:first-free", "not-foldable", fe_und, we)
+    elif fe_bad:
+        c.finding("find_empty_directory_entry:first-free", "with slots %s%s in use the search answers %s" % (fe_bad[0], "..." if fe_bad[1] > 6 else "", fe_bad[2]),
+                  "find_empty_directory_entry, folded on a directory whose slots %s%s are in use, answers %s; the first slot not in use is %s - a directory with killed entries in "
+                  "the middle is reported full (or a live entry is overwritten)" % (fe_bad[0], "..." if fe_bad[1] > 6 else "", fe_bad[2], fe_bad[3]), we)
+    else:
+        c.ok("find_empty_directory_entry:first-free", "first slot not in use on 8 model directories", we)
     # add_file raises when -1
     raised = False
     for n in ast.walk(af_flat):
@@ -474,6 +505,38 @@ def dsk2(ctx, c):
                   "then takes the image for something other than a disk" % U(text_guard[0].test)[:70], repo.loc(lfr, text_guard[0]))
     else:
         c.ok("list_files:name-text", "no entry is refused for the characters of its name", repo.loc(lfr, lfr.node))
+    # write_dir_entry folded for sample names: bytes 0..10 of the entry are the name and extension, upper-cased, blank padded / cut, with NUL stored as a blank.
+    # (the fold may stop at a later statement it cannot evaluate; the eleven bytes are judged only when all of them were stored before that point)
+    wparams = [p_ for p_ in fn.params if p_ != "self"]
+    if len(wparams) >= 4:
+        pf_ = wparams[1]
+        nm_bad, nm_und = None, None
+        for name_, ext_ in (("HELLO", "BIN"), ("hello", "bas"), ("LONGFILENAME", "TEXT"), ("", ""), ("\x00AB", "BIN"), ("\x00\x00\x00\x00\x00\x00\x00\x00", "\x00\x00\x00"), ("A B", "B"), ("NAME.1", "X")):
+            buf_ = _SparseBuf()
+            slot_ = 3
+            env0 = dict(ctx.env)
+            env0.update({"self.buffer": buf_, "%s.name" % pf_: name_, "%s.extension" % pf_: ext_, "%s.type.int" % pf_: 2, "%s.data_type.int" % pf_: 0})
+            try:
+                _fold_disk_method(ctx, "write_dir_entry", env0, (slot_, "<file>", 5, 17), {})
+            except Exception:
+                pass
+            base_ = D.DIR_OFFSET + D.DIR_ENTRY_LEN * slot_
+            if not all((base_ + i_) in buf_ for i_ in range(11)):
+                nm_und = nm_und or "the eleven name bytes were not all stored for %r" % name_
+                continue
+            got_ = [buf_[base_ + i_] for i_ in range(11)]
+            want_ = [0x20 if ch_ == "\x00" else ord(ch_) for ch_ in (name_.ljust(8)[:8] + ext_.ljust(3)[:3]).upper()]
+            if got_ != want_:
+                nm_bad = nm_bad or (name_, ext_, got_, want_)
+        if nm_bad:
+            c.finding("write_dir_entry:name-bytes", "the name %r / %r is stored as %s" % (nm_bad[0], nm_bad[1], " ".join("%02X" % (x if isinstance(x, int) else 0) for x in nm_bad[2])),
+                      "write_dir_entry, folded for the name %r and extension %r, stores %s in the entry's first eleven bytes; the format has %s (upper case, blank padded, and a NUL stored as a "
+                      "blank: a first byte of 00 marks the entry as killed, the file would vanish while its granules stay allocated)"
+                      % (nm_bad[0], nm_bad[1], nm_bad[2], " ".join("%02X" % x for x in nm_bad[3])), where)
+        elif nm_und:
+            c.undecided("write_dir_entry:name-bytes", "not-foldable", nm_und, where)
+        else:
+            c.ok("write_dir_entry:name-bytes", "name and extension bytes folded for 8 sample names", where)
     # the name and extension bytes come from the file's own name and extension, padded / cut / upper-cased and nothing else:
     # a default substituted for an empty one stores a different name than the one asked for
     binds = {}
@@ -779,6 +842,21 @@ def dsk3(ctx, c):
     else:
         c.check(not wrong, "add_file:preamble-selection", "type 2 -> ML, ASCII flag FF -> none, else BASIC", "selection %s" % "; ".join(wrong),
                 "add_file, evaluated per file kind, builds: %s; the format is: file type 2 -> machine-language header, ASCII flag FF -> none, otherwise BASIC header" % "; ".join(wrong), w)
+    # a table indexed by a byte read from the image answers KeyError for every value it has no row for: that is not a validation error, so the sniffing in
+    # get_coco_files does not fall through to the next reader - re-opening such an image ends in a traceback
+    lfm_ = repo.method(CLS, "list_files")
+    mod_ = lfm_.module
+    for n_ in ast.walk(lfm_.node):
+        if isinstance(n_, ast.Subscript) and isinstance(n_.ctx, ast.Load) and isinstance(n_.value, ast.Name) and isinstance(mod_.assigns.get(n_.value.id), ast.Dict) \
+                and not isinstance(n_.slice, ast.Constant):
+            keys_ = [try_fold(k_, ctx.env) for k_ in mod_.assigns[n_.value.id].keys]
+            guarded_ = any(isinstance(t_, ast.Try) and any(x is n_ for b_ in t_.body for x in ast.walk(b_)) and
+                           any(h_.type is None or re.search(r"KeyError|LookupError|Exception", U(h_.type)) for h_ in t_.handlers) for t_ in ast.walk(lfm_.node)) \
+                or any(isinstance(i_, ast.If) and re.search(r"\b(not )?in %s\b" % re.escape(n_.value.id), U(i_.test)) for i_ in ast.walk(lfm_.node))
+            if all(isinstance(k_, int) for k_ in keys_) and len(keys_) < 256 and not guarded_ and re.search(r"\.int\b|buffer\[", U(n_.slice)):
+                c.finding("list_files:table-lookup", "%s[%s] has rows for %s only" % (n_.value.id, U(n_.slice)[:30], sorted(keys_)[:6]),
+                          "list_files looks `%s` up in the table %s, which has rows for %s: any other value of that byte (file type $03 on a disk written elsewhere, or the bytes of a long "
+                          "tape image that is being sniffed) raises KeyError instead of a validation error" % (U(n_.slice)[:40], n_.value.id, sorted(keys_)), repo.loc(lfm_, n_))
     # the reader list_files: the shape `if <type test>: preamble = <Class>(...)`
     for meth in ("list_files",):
         f = repo.method(CLS, meth)
@@ -899,12 +977,17 @@ def dsk4(ctx, c):
         if len(names_) != 1:
             continue
         try:
-            tb = {v_: bool(_flt(t_, dict(ctx.env, **{names_[0]: v_}))) for v_ in (0x00, 0x21, 0x43, 0xC0, 0xC1, 0xC5, 0xC9)}
+            tb = {v_: bool(_flt(t_, dict(ctx.env, **{names_[0]: v_}))) for v_ in list(range(0, D.GRANULES)) + list(range(0xC0, 0xCA))}
         except _Nlt:
             continue
-        if not tb[0x00] and not tb[0x21] and not tb[0x43] and tb[0xC1] and tb[0xC9]:
+        if not tb[0x00] and not tb[0x21] and tb[0xC1] and tb[0xC9]:
             lt_verdict = (U(t_), tb)
-    if lt_verdict is not None:
+    links_as_last = [v_ for v_ in range(D.GRANULES) if lt_verdict is not None and lt_verdict[1][v_]]
+    if links_as_last:
+        c.finding("calculate_file_length:last-test", "`%s` holds for the link to granule %d" % (lt_verdict[0], links_as_last[0]),
+                  "calculate_file_length recognises the last granule by `%s`, which also holds for the FAT bytes %s: those are links to granules %d..%d, not end markers, so a chain that "
+                  "runs through one of them is cut short and the file is listed truncated" % (lt_verdict[0], ", ".join("$%02X" % v_ for v_ in links_as_last[:4]), links_as_last[0], links_as_last[-1]), wc)
+    elif lt_verdict is not None:
         c.check(lt_verdict[1][0xC0] and lt_verdict[1][0xC5], "calculate_file_length:last-test", "(e & C0) == C0", "`%s` is false for the entry $C0" % lt_verdict[0],
                 "calculate_file_length recognises the last granule by `%s`, which does not hold for $C0 (a last granule with no sector in use, what Disk BASIC leaves for a file "
                 "opened and closed without writing): the chain is followed through granule $C0 = 192, which does not exist" % lt_verdict[0], wc)
